@@ -115,7 +115,7 @@ func Parse(b []byte) (*Volume, []string) {
 		e.Size = binary.LittleEndian.Uint64(b[off+0x10:])
 		copy(e.Hash[:], b[off+0x18:])
 		copy(e.Hash16k[:], b[off+0x28:])
-		if e.EntryBytes < 0x38+2 || e.EntryBytes%2 != 0 || off+e.EntryBytes > uint64(len(b)) {
+		if e.EntryBytes < 0x38+2 || e.EntryBytes%2 != 0 || e.EntryBytes > uint64(len(b)) || off+e.EntryBytes > uint64(len(b)) {
 			bad("entry %d has size %d", i, e.EntryBytes)
 			return v, problems
 		}
